@@ -77,7 +77,7 @@ fn rel_node(rng: &mut Rng, id: &str, r: &str, r2: &str) -> (String, String, bool
     let loc2 = *rng.pick(LOCS);
     let dir = *rng.pick(&["h", "H", "v", "V"]);
     // returns (kind, xml, uses_second_ref)
-    match rng.below(22) {
+    match rng.below(33) {
         0 => ("rel-dir-wh".into(), format!("<rect id=\"{id}\" xy=\"#{r}|{dir} {g}\" wh=\"{w} {h}\"/>"), false),
         1 => (
             "rel-dir-longsize".into(),
@@ -163,10 +163,65 @@ fn rel_node(rng: &mut Rng, id: &str, r: &str, r2: &str) -> (String, String, bool
             format!("<ellipse id=\"{id}\" cxy=\"#{r}@{loc}\" rx=\"{w}\" ry=\"{h}\"/>"),
             false,
         ),
-        _ => (
+        21 => (
             "rel-line-xy1xy2".into(),
             format!("<line id=\"{id}\" xy1=\"#{r}@{loc}\" xy2=\"#{r2}@{loc2}\"/>"),
             true,
+        ),
+        22 => (
+            "rel-points".into(),
+            format!("<polyline id=\"{id}\" points=\"#{r}@{loc} #{r2}@{loc2}\"/>"),
+            true,
+        ),
+        23 => (
+            "rel-path-d".into(),
+            format!("<path id=\"{id}\" d=\"M #{r}@{loc} L #{r2}@{loc2}\"/>"),
+            true,
+        ),
+        24 => (
+            "rel-use".into(),
+            format!("<use id=\"{id}\" href=\"#{r}\" xy=\"#{r2}|{dir} {g}\"/>"),
+            true,
+        ),
+        25 => (
+            "rel-group-child".into(),
+            format!("<g id=\"{id}\"><rect xy=\"#{r}|{dir} {g}\" wh=\"{w} {h}\"/><circle cxy=\"#{r2}@{loc}\" r=\"1\"/></g>"),
+            true,
+        ),
+        26 => (
+            "rel-circle-foreign-xy".into(),
+            format!("<circle id=\"{id}\" x=\"#{r}~x2\" y=\"{g}\" r=\"{w}\"/>"),
+            false,
+        ),
+        27 => (
+            "rel-rect-foreign-cxcy".into(),
+            format!("<rect id=\"{id}\" cx=\"#{r}~x2\" cy=\"{{{{#{r2}~cy + {g}}}}}\" width=\"{w}\" height=\"{h}\"/>"),
+            true,
+        ),
+        28 => (
+            "rel-rect-foreign-x2y2".into(),
+            format!("<rect id=\"{id}\" x2=\"#{r}~x\" y2=\"#{r2}~y\" wh=\"{w} {h}\"/>"),
+            true,
+        ),
+        29 => (
+            "rel-ellipse-foreign-xy".into(),
+            format!("<ellipse id=\"{id}\" x=\"{{{{#{r}~x2 + {g}}}}}\" y=\"#{r2}~y2\" rx=\"{w}\" ry=\"{h}\"/>"),
+            true,
+        ),
+        30 => (
+            "rel-line-foreign".into(),
+            format!("<line id=\"{id}\" x1=\"#{r}~x2\" y1=\"#{r}~cy\" width=\"{w}\" height=\"{h}\"/>"),
+            false,
+        ),
+        31 => (
+            "rel-dwdh-native".into(),
+            format!("<rect id=\"{id}\" x=\"{g}\" y=\"{g}\" width=\"{w}\" height=\"{h}\" dw=\"{{{{#{r}~w}}}}\" dh=\"{{{{#{r2}~h}}}}\"/>"),
+            true,
+        ),
+        _ => (
+            "rel-reuse".into(),
+            format!("<reuse id=\"{id}\" href=\"#tpl\" xy=\"#{r}|{dir} {g}\"/>"),
+            false,
         ),
     }
 }
@@ -229,7 +284,7 @@ pub fn orders_of(scn: &Scn) -> (Vec<Vec<usize>>, bool) {
 }
 
 pub fn render_doc(scn: &Scn, order: &[usize]) -> String {
-    let mut s = String::from("<svg>\n");
+    let mut s = String::from("<svg>\n  <specs><rect id=\"tpl\" wh=\"3 2\"/></specs>\n");
     for i in order {
         s.push_str("  ");
         s.push_str(&scn.nodes[*i].xml);
